@@ -226,7 +226,7 @@ def run(ctx):
             for direction in ('req', 'resp'):
                 rdir = 'server' if direction == 'req' else 'client'
                 for _ in range(4):
-                    uid = rng.choice([1, 2, 0x11])
+                    uid = rng.choice([1, 2, 0x11, 0x7B])      # 0x7B: the binary start delimiter as a unit id (sent raw, legal)
                     kind, g = gen_garbage(rng, name, direction, uid)
                     frames = gen_valid(rng, name, direction, uid, rng.choice([2, 3, 8, 20, 50] if kind != 'bighead' else [20, 50, 80]))
                     if len(frames) < 2:
